@@ -1,7 +1,7 @@
 // pvh: conformance harness binding the TLA+ specifications in /verif/spec to the
 // real opsidian/parsley code in /repo (built with -tags verif).
 //
-//   pvh <component> <mode> [key=value ...]
+//	pvh <component> <mode> [key=value ...]
 //
 // Every component has a model->code mode ("replay": cases exported by TLC, each with the
 // outcome the specification expects, are run through the real code and compared) and a
